@@ -31,6 +31,9 @@ class Registration(Stream):
         for i in range(n_cfg):
             r = rng.fork("cfg%d" % i)
             cfg = proc.default_cfg(r if i else None, counts=[2, 0, 0, 0, 0])
+            if i % 8 in (2, 5):  # both ends of the gNB ID size range (22..32 bits)
+                bl = 22 if i % 8 == 2 else 32
+                cfg.update(gnb_bitlength=bl, gnb_id=bytes(r.below(128) for _ in range((bl + 7) // 8)))
             if i % 4 == 3:       # hexadecimal key material that begins with the digit 0 / with a zero octet
                 cfg["k"] = "0" + cfg["k"][1:]
                 cfg["opc"] = "00" + cfg["opc"][2:]
